@@ -2019,7 +2019,10 @@ theorem handle_spec {s s' : State} (h : Acct s) {m : Msg}
     · simp at hh
     simp only [ite_none_left_eq_some, Option.some.injEq] at hh
     obtain ⟨_, rfl⟩ := hh
-    exact ⟨⟨TxFrame.refl _, h, by simp [donation], by simp [Msg.burnAmount]⟩, by simp [donation]⟩
+    have e : TxEff s { s with upgrade := (ht, ver) } 0 0 :=
+      (seff_of_wf h ((wf_upgrade (s := s) (ht, ver)).2 h.wf) rfl rfl rfl rfl).txEff (by frame_rfl) rfl
+    exact ⟨by simpa [donation, Msg.burnAmount] using e, by simp [donation]⟩
+
 theorem TxEff.refl {s : State} (h : Acct s) : TxEff s s 0 0 :=
   ⟨TxFrame.refl s, h, by omega, by omega⟩
 
